@@ -71,7 +71,7 @@ CLAIMS["C04"] = {"engine": "chainsim", "level": "exploration", "design_ref": "4/
 CLAIMS["C05"] = {"engine": "chainsim", "level": "exploration", "design_ref": "4/C05", "technique": "deterministic simulation: byte-level database dump comparison before apply / after delete for every deletion the system performs",
     "text": "Every tip deletion the nodes perform themselves is followed, synchronously, by a full blockchain-DB dump comparison with the dump recorded before the deleted block was applied.", "note": _chain_note}
 CLAIMS["C15"] = {"engine": "chainsim", "level": "exploration", "design_ref": "4/C15", "technique": "deterministic simulation: own-validation of every generated block and pairwise non-contradiction of all headers a key signs across chain switches, failed syncs and restarts",
-    "text": "The real generator runs on every node over pools fed by a client workload; each block it hands on must be accepted by the node's own processing, its payload must follow the selection rule (per-sender nonce order, fee priority among the senders' next transactions, failed senders skipped, size limit, no early stop) evaluated on the pool and account nonces observed right before generation, and the generator DB is read after every forge to collect the signed header triples, which must be pairwise non-contradicting. Commands that fail during execution are not part of the workload.", "note": _chain_note}
+    "text": "The real generator runs on every node over pools fed by a client workload; each block it hands on must be accepted by the node's own processing, its payload must follow the selection rule (per-sender nonce order, fee priority among the senders' next transactions, failed senders skipped, size limit, no early stop) evaluated on the pool and account nonces observed right before generation, and the generator DB is read after every forge to collect the signed header triples, which must be pairwise non-contradicting. The workload includes transactions whose command fails (valid, kept in the block, effects discarded) and transactions that verify but whose execution is INVALID (refused by a hook after the command): these must be left out with their sender and leave no trace in the state the block's roots are computed from.", "note": _chain_note}
 CLAIMS["C13"] = {"engine": "chainsim", "level": "exploration", "design_ref": "4/C13", "technique": "deterministic simulation with crash injection: process death at drawn file-system calls inside block commit/removal (torn write, power loss or kill, I/O error, crash during recovery) on a simulated disk; restarted node compared key for key with the before/after image of a fault-free twin",
     "text": "The chain operations a simulated network produces are replayed on a victim node whose disk dies at a drawn file-system call inside processValidated/deleteBlock; after restart the blockchain DB must equal the fault-free twin's before- or after-image, the node must start and report the matching tip, BFT heights, finalized height and application state. Sampling of crash points and histories.",
     "note": "Trusted: pebble's strict MemFS as the durability model, simfs (crash = frozen goroutines + released descriptors), the twin as image source. Background compactions are off."}
@@ -79,7 +79,7 @@ CLAIMS["C19"] = {"engine": "chainsim", "level": "exploration", "design_ref": "4/
     "text": "Every sync RPC between the simulated nodes is observed: un-faulted handler responses are compared with the responder's own chain, the peer chosen by a block sync with the selection rule evaluated on the tips it was told (incl. fabricated tips of phantom peers), a fast chain switch must end on the new or the old tip and ban the peer after a roll-back; after the fault phase a fault-free phase of 4 rounds must leave all honest nodes on one chain. Sampling of histories.",
     "note": _chain_note + " Goroutine interleavings inside the sync code are not explored (they run in place)."}
 CLAIMS["C03"] = {"engine": "chainsim", "level": "exploration", "design_ref": "4/C03", "technique": "deterministic simulation with a tampering-peer fault: single-rule, correctly re-signed mutants of valid successors offered to whole nodes in reachable states; full database dump, tip and event comparison after each rejection",
-    "text": "Nodes of a simulated network (forks, syncs, validator changes, restarts) are offered single-rule mutants of blocks that are valid successors of their current state; each mutant must be rejected leaving tip, blockchain DB, application state DB and published chain events exactly as they were. Sampling of states and mutants.",
+    "text": "Nodes of a simulated network (forks, syncs, validator changes, restarts) are offered single-rule mutants of blocks that are valid successors of their current state; each mutant must be rejected leaving tip, blockchain DB, application state DB and published chain events exactly as they were. The payload rules are decided through the Byzantine generator: blocks valid in everything but the payload size (built with four times the limit), twins carrying a statically invalid transaction with all roots recomputed, and blocks announced with one payload and served to synchronizing nodes with another; every block an honest node appends, whichever way it came, must have a payload within the limit, of statically valid transactions, matching its transaction and asset roots. Sampling of states and mutants.",
     "note": _chain_note + " The valid-successor premise rests on the block being signed by an honest validator and linking to the node's tip."}
 CLAIMS["C06"] = {"engine": "chainsim", "level": "exploration", "design_ref": "4/C06", "technique": "deterministic simulation of whole nodes certifying and aggregating among themselves, plus a certificate-forger fault: aggregate and single commits built from drawn heights, signer subsets and tamperings whose admissibility is known by construction, compared with the node's verdict; own-aggregate self-check after every generator tick",
     "text": "Nodes run the real certificate pipeline on chains that leave the first 100 heights; every aggregate commit a node would embed must pass its own verification, forged aggregate commits must be accepted exactly when construction says they are admissible (incl. the next-parameter bound and the weight threshold), and forged single commits must not enter the pool unless valid. Sampling of chain positions, subsets and tamperings.",
@@ -88,6 +88,6 @@ CLAIMS["C07"] = {"engine": "chainsim", "level": "exploration", "design_ref": "4/
     "text": "History- and time-dependent clauses of C07 on whole simulated nodes: fork-choice classification of every processed block against a reference rule, symmetry/agreement of the contradiction predicate on header pairs from honest and Byzantine generators, no contradicting header applied, no honest header flagged. The exhaustive small-range enumeration of header pairs is not done (pure function, outside the technique).",
     "note": _chain_note + " Header pairs are those the simulated histories produce, not all pairs."}
 CLAIMS["C09"] = {"engine": "chainsim", "level": "exploration", "design_ref": "4/C09, 5", "technique": "deterministic simulation with hostile-peer faults: corrupted copies of real payloads and crafted messages injected into every gossip validator/handler and RPC handler of whole running nodes, corrupted sync responses, well-signed invalid blocks; a panic or an endless request loop inside a node step is the verdict",
-    "text": "Whole nodes under normal traffic receive corrupted and crafted gossip and RPC payloads at every network-facing entry point of consensus, sync and transaction pool; the process model of the simulator turns a panic or a non-terminating step into a violation. Sampling of corruptions; the p2p envelope layer and the HTTP RPC server are not in this harness.",
-    "note": _chain_note + " Not exhaustive over byte strings; p2p envelopes are covered by C18's malformed traffic, trie proof verifiers by C10/C11."}
+    "text": "Whole nodes under normal traffic receive corrupted and crafted gossip and RPC payloads at every network-facing entry point of consensus, sync and transaction pool; the process model of the simulator turns a panic or a non-terminating step into a violation. Second part: the real pkg/p2p request/response layer facing hostile envelopes. Third part: the hostile peer's mutators (incl. damage inside nested fields with fitted length prefixes) against every network-facing decoder and the RMT/SMT proof verifiers in isolation, with panic, allocation (bounded by the input size) and time oracles. Sampling of corruptions; the HTTP RPC server is not in this harness.",
+    "note": _chain_note + " Not exhaustive over byte strings; libp2p and gossipsub themselves are not run."}
 PENDING = {"C08": "no schedule, clock, fault or interleaving in it: codec round trip, canonical strict decoding, ID stability and Lisk32 conversion are pure functions of one input value; deciding them means generating values and byte strings (property-based input generation), which this technique family does not do. The simulated runs do push every block, transaction, single commit, sync message and ABI request/response through the real codecs (wire, disk and ABI loopback), and a decode/encode disagreement there would surface as a rejected honest block or a diverging state in the C02/C03/C05/C13 oracles, but that is incidental coverage of the values runs happen to produce, not a decision of C08."}
